@@ -98,9 +98,11 @@ def allocs : Op R → Nat → List Nat
   | adjoint _, _ => []
   | sliced _ _ _, _ => []
   | concat _ _, _ => []
-  | house _ _ _ _, _ => []
+  -- Householder._matmat (operators.py:622-626): conj(vec), X * ·, the column sums `angle`, beta * angle,
+  -- · * vec, X - ·
+  | house _ n _ _, b => [n, n * b, b, b, n * b, n * b]
 
-/-- Σ dense sizes of the leaves -/
+/-- Σ dense sizes of the leaves (a Householder reflector stores its vector) -/
 def leafStorage : Op R → Nat
   | dense _ r c _ => r * c
   | tri _ r c _ _ => r * c
@@ -116,6 +118,7 @@ def leafStorage : Op R → Nat
   | sliced A _ _ => A.leafStorage
   | generic A => A.leafStorage
   | annot _ A => A.leafStorage
+  | house _ n _ _ => n
   | _ => 0
 
 def maxL (l : List Nat) : Nat := l.foldr max 0
@@ -137,6 +140,7 @@ def vol : Op R → Nat
   | bdiag Ms mults => dotSum (Ms.map (·.vol)) mults
   | generic A => A.vol
   | annot _ A => A.vol
+  | house _ n _ _ => n
   | _ => 0
 
 /-- the operator kinds of the statement of C19 (and the transparent wrappers) -/
@@ -156,6 +160,7 @@ def inScope : Op R → Bool
   | bdiag Ms _ => (Ms.map (·.inScope)).all id
   | generic A => A.inScope
   | annot _ A => A.inScope
+  | house _ n _ _ => decide (1 ≤ n)
   | _ => false
 
 /-- every leaf matrix is square -/
@@ -171,5 +176,100 @@ def squareLeaves : Op R → Bool
   | generic A => A.squareLeaves
   | annot _ A => A.squareLeaves
   | _ => true
+
+/-! ## peak: the entries LIVE at the same time during `A @ X` (round 2)
+
+`peakMM A b` bounds the number of entries held simultaneously by arrays that `A._matmat(X)` allocated
+(the operand `X` itself is the caller's and is not counted, the result is), following the same source
+lines as `allocs` and CPython's reference counting (an array is released when its last name is
+re-bound; the elements of a list live until the list does):
+
+* `Dense`: the two `astype` copies and the product are alive together: `r·c + c·b + r·b`
+  (`Triangular`, which multiplies `self.A @ V` directly, and `Sparse` are given the same / the operand
+  copy + result: upper bounds);
+* `Product`: while `M @ v` runs its operand `v` (the previous result, `cols M · b`) is alive;
+* `Sum` (`sum(M @ v for M in Ms)`): the accumulator is alive while the next term is computed, and
+  `acc + term` allocates a third array: `2·rows·b + max peak`;
+* `Kronecker`: per factor the old `ev`, its reshaped copy (both `pre·cᵢ·rest·b`) and whatever `Mᵢ @ ·`
+  holds; at the end `ev` and its final reshaped copy;
+* `KronSum`: `ev`, `out`, the reshaped copy AND the previous iteration's `Mev_front` (still bound while the
+  next product runs; found by the measured tie) — `∏ cⱼ · b` each — plus whatever `Mᵢ @ ·` holds;
+* `BlockDiag`: the list `y` of finished blocks (at most `rows·b`), the final concatenation (`rows·b`),
+  and per block the gathered copy, whatever `M @ ·` holds and the scattered copy;
+* `Tridiagonal`: all nine temporaries (no liveness analysis); `Permutation`: gather + cast.
+
+`lvl A` is the resulting multiple of the operand size: **`peakMM A b ≤ lvl A · (vol A · b) + leafStorage A`**
+(Lemmas/CostPeak.lean) — `2` at a dense leaf, `+1` per Product, `+2` per Sum / Kronecker, `+4` per
+KronSum, `+4` per BlockDiag level: it depends on the nesting of the tree only, never on the sizes.
+props/c19.py judges the measured `tracemalloc` peak against `peakMM` itself (computed by the driver). -/
+
+structure FacPeak where
+  r : Nat
+  c : Nat
+  peak : Nat → Nat
+
+def kronPeakLoop (b : Nat) : Nat → List FacPeak → Nat
+  | _, [] => 0
+  | pre, M :: Ms =>
+      max (2 * (pre * M.c * (Ms.map (·.c)).prod * b) + M.peak (pre * (Ms.map (·.c)).prod * b))
+          (kronPeakLoop b (pre * M.r) Ms)
+
+def kronSumPeakMax (b : Nat) : Nat → List FacPeak → Nat
+  | _, [] => 0
+  | pre, M :: Ms => max (M.peak (pre * (Ms.map (·.c)).prod * b)) (kronSumPeakMax b (pre * M.c) Ms)
+
+def bdiagPeakMax (b : Nat) : List (FacPeak × Nat) → Nat
+  | [] => 0
+  | (M, mult) :: rest => max (mult * M.c * b + M.peak (b * mult) + mult * M.r * b) (bdiagPeakMax b rest)
+
+/-- entries alive at the same time during `A._matmat(X)`, `X : cols × b` -/
+def peakMM : Op R → Nat → Nat
+  | dense _ r c _, b => r * c + c * b + r * b
+  | tri _ r c _ _, b => r * c + c * b + r * b
+  | sparse _ r c _, b => c * b + r * b
+  | scalar _ _ n, b => n * b
+  | eye _ n, b => n * b
+  | diag _ n _, b => n * b
+  | tridiag _ n _ _ _, b => 5 * (n * b) + 2 * b + 2 * ((n - 1) * b)
+  | perm _ p, b => 2 * (p.length * b)
+  | prod Ms, b => maxL (Ms.map (fun M => M.cols * b + M.peakMM b))
+  | sum Ms, b => 2 * ((Ms.map (·.rows)).head?.getD 0 * b) + maxL (Ms.map (fun M => M.peakMM b))
+  | kron Ms, b =>
+      max (kronPeakLoop b 1 (Ms.map (fun M => (⟨M.rows, M.cols, fun b' => M.peakMM b'⟩ : FacPeak))))
+          (2 * ((Ms.map (·.rows)).prod * b))
+  | kronsum Ms, b =>
+      4 * ((Ms.map (·.cols)).prod * b) +
+        kronSumPeakMax b 1 (Ms.map (fun M => (⟨M.rows, M.cols, fun b' => M.peakMM b'⟩ : FacPeak)))
+  | bdiag Ms mults, b =>
+      2 * (dotSum (Ms.map (·.rows)) mults * b) +
+        bdiagPeakMax b ((Ms.map (fun M => (⟨M.rows, M.cols, fun b' => M.peakMM b'⟩ : FacPeak))).zip mults)
+  | generic A, b => A.peakMM b
+  | annot _ A, b => A.peakMM b
+  | transpose _, _ => 0
+  | adjoint _, _ => 0
+  | sliced _ _ _, _ => 0
+  | concat _ _, _ => 0
+  -- conj(vec) and X * conj(vec) die when `angle` exists; then beta * angle, · * vec and the difference
+  | house _ n _ _, b => n + 2 * (n * b) + 2 * b
+
+/-- how many operand-sized arrays are alive at once: a function of the NESTING of the tree only -/
+def lvl : Op R → Nat
+  | dense .. => 2
+  | tri .. => 2
+  | sparse .. => 2
+  | scalar .. => 1
+  | eye .. => 1
+  | diag .. => 1
+  | tridiag .. => 9
+  | perm .. => 2
+  | prod Ms => maxL (Ms.map (·.lvl)) + 1
+  | sum Ms => maxL (Ms.map (·.lvl)) + 2
+  | kron Ms => maxL (Ms.map (·.lvl)) + 2
+  | kronsum Ms => maxL (Ms.map (·.lvl)) + 4
+  | bdiag Ms _ => maxL (Ms.map (·.lvl)) + 4
+  | generic A => A.lvl
+  | annot _ A => A.lvl
+  | house .. => 4
+  | _ => 0
 
 end Op
